@@ -807,9 +807,13 @@ void history(
                     up.hash_budget = budgets[g.r.below(5)];
                     up.hash_seed = 1 + g.r.below(1000000);
                 } else if (!o.hash_faults_only) {
-                    up.alloc_fail_at = (long long)g.r.below(60);
+                    if (g.r.chance(0.5))
+                        up.alloc_fail_from_end = (int)g.r.below(30);
+                    else
+                        up.alloc_fail_at = (long long)g.r.below(60);
                 }
-                faulty = up.hash_budget || up.alloc_fail_at >= 0;
+                faulty = up.hash_budget || up.alloc_fail_at >= 0 ||
+                    up.alloc_fail_from_end >= 0;
             } else if (has_hash && g.r.chance(0.3)) {
                 up.hash_seed = 1 + g.r.below(1000000);
             }
